@@ -188,10 +188,28 @@ func (c *Ctx) Finish() int {
 	})
 	dir := filepath.Join(VerifDir, "replays")
 	os.MkdirAll(dir, 0o755)
-	max := 5
-	for i, v := range c.violations {
+	// group by (class, key): one replay file per group, the first (smallest detail) of each
+	type group struct {
+		first *Violation
+		n     int
+	}
+	groups := map[string]*group{}
+	var order []string
+	for _, v := range c.violations {
+		id := v.Class + " " + matchStr(v.Key)
+		if g, ok := groups[id]; ok {
+			g.n++
+			continue
+		}
+		groups[id] = &group{first: v, n: 1}
+		order = append(order, id)
+	}
+	max := 12
+	for i, id := range order {
+		g := groups[id]
+		v := g.first
 		if i >= max {
-			fmt.Printf("... %d further violations not written\n", len(c.violations)-max)
+			fmt.Printf("... %d further violation groups not written\n", len(order)-max)
 			break
 		}
 		if c.Replay != "" {
@@ -204,7 +222,7 @@ func (c *Ctx) Finish() int {
 				return ExitHarness
 			}
 		}
-		fmt.Printf("violation class=%s %s: %s\n", v.Class, matchStr(v.Key), oneLine(v.Detail, 600))
+		fmt.Printf("violation class=%s %s (%d occurrences): %s\n", v.Class, matchStr(v.Key), g.n, oneLine(v.Detail, 700))
 		fmt.Printf("VIOLATION property=%s replay=%s\n", c.Prop, v.path)
 	}
 	return ExitViolation
